@@ -170,8 +170,8 @@ def native_part(tier, seed, limit):
         d["grp"] = SUB({"a": S(hostile[2] + l), "b": S(hostile[4])})
         return d
     cases.insert(0, Case(Project("en", ["en", "fr", "de"], {l: tree(l) for l in ("en", "fr", "de")}), "c17_script/plain", roles={"*": "script_context_strings"}))
-    nsf = {ns: {l: {"k%d" % i: S(x + ns + l) for i, x in enumerate(hostile[:8])} for l in ("en", "fr")} for ns in ("zz", "aa")}
-    cases.insert(1, Case(Project("en", ["en", "fr"], nsf, namespaces=["zz", "aa"]), "c17_script/namespaces", roles={"*": "script_context_strings"}))
+    nsf = {ns: {l: {"k%d" % i: S(x + ns + l) for i, x in enumerate(hostile[:8])} for l in ("en", "fr")} for ns in ("zz", "user-menu", "aa")}
+    cases.insert(1, Case(Project("en", ["en", "fr"], nsf, namespaces=["zz", "user-menu", "aa"]), "c17_nsnames/dash", roles={"*": "script_context_strings"}))
     # spread over the families
     fams = {}
     for c in cases:
@@ -179,7 +179,7 @@ def native_part(tier, seed, limit):
     order = []
     i = 0
     while len(order) < limit and any(fams.values()):
-        prio = ["c17_script", "c11_unicode", "c11:c03_inherit", "c11:c01_namespaces", "c11:c01_subkeys", "c11:c01_interp", "c11:c06_args", "c11:c01_literals"]
+        prio = ["c17_script", "c17_nsnames", "c11_unicode", "c11:c03_inherit", "c11:c01_namespaces", "c11:c01_subkeys", "c11:c01_interp", "c11:c06_args", "c11:c01_literals"]
         for f in sorted(fams, key=lambda x: (prio.index(x) if x in prio else len(prio), x)):
             if fams[f]:
                 order.append(fams[f].pop((seed + i) % len(fams[f]) if fams[f] else 0))
@@ -261,7 +261,14 @@ def native_part(tier, seed, limit):
                     if not (isinstance(u, dict) and set(u) == {"locale", "id", "values"} and isinstance(u["values"], list)):
                         shape_ok = False
                         break
-                    key = (u["id"].replace("-", "_") if u["id"] else None, u["locale"].replace("-", "_"))
+                    # ids and locales must be the configured names exactly (the client deserialises them by name)
+                    if u["id"] is not None and u["id"] not in (proj.namespaces or []):
+                        findings.append(("unknown_unit_id", dict(base, unit=[u["id"], u["locale"]], namespaces=proj.namespaces)))
+                        continue
+                    if u["locale"] not in proj.locale_order():
+                        findings.append(("unknown_unit_locale", dict(base, unit=[u["id"], u["locale"]], locales=list(proj.locale_order()))))
+                        continue
+                    key = (u["id"].replace("-", "_") if u["id"] else None, proj.ident(u["locale"]))
                     if key in listed:
                         findings.append(("unit_listed_twice", dict(base, unit=list(key))))
                     listed[key] = u["values"]
@@ -297,7 +304,7 @@ def run(tier, seed):
     krun = kani_run.KaniRun("jsstr", HARNESSES_1, jobs=len(HARNESSES_1), timeout_s=1500, unwindset={"write_js_string": 2})
     replay.lock()
     try:
-        stats, findings, inconclusive, tags = native_part(tier, seed, 8 if tier == "quick" else 30)
+        stats, findings, inconclusive, tags = native_part(tier, seed, 9 if tier == "quick" else 30)
     finally:
         replay.unlock()
     known = report.load_known()
@@ -326,10 +333,16 @@ def run(tier, seed):
     rc_k, cov = kcheck.finish(
         prop, krun, ["witness_js_reaches_assert"],
         bounds="strings of exactly one Unicode scalar value of 1, 2, 3, 4 UTF-8 bytes (every scalar value)", **kw)
-    krun2 = kani_run.KaniRun("jsstr", HARNESSES_2, jobs=len(HARNESSES_2), timeout_s=2400 if tier == "quick" else 5400, unwindset={"write_js_string": 3})
-    rc_k2, cov2 = kcheck.finish(
-        prop, krun2, [],
-        bounds="strings of exactly two scalar values where at least one is ASCII (byte lengths 1+1, 1+2, 2+1, 1+3, 3+1, 1+4, 4+1: every such pair)", **kw)
+    if krun.unwindset is None:
+        # the function whose loop gets its own bound is gone from /repo's tree: the two-character harnesses would need
+        # ~10 GB each with the global bound; no verdict from them
+        print("INCONCLUSIVE property=C17 no loop of `write_js_string` in the goto binary: two-character harnesses not run")
+        rc_k2, cov2 = 2, {"harnesses": {}, "harnesses_successful": 0, "solver_s": 0, "violations": [], "bounds": "two-character harnesses not run", "wall_s": 0}
+    else:
+        krun2 = kani_run.KaniRun("jsstr", HARNESSES_2, jobs=len(HARNESSES_2), timeout_s=2400 if tier == "quick" else 5400, unwindset={"write_js_string": 3})
+        rc_k2, cov2 = kcheck.finish(
+            prop, krun2, [],
+            bounds="strings of exactly two scalar values where at least one is ASCII (byte lengths 1+1, 1+2, 2+1, 1+3, 3+1, 1+4, 4+1: every such pair)", **kw)
     cov["two_characters"] = cov2
     cov["harnesses"] = dict(cov["harnesses"], **cov2["harnesses"])
     cov["harnesses_successful"] += cov2["harnesses_successful"]
